@@ -545,6 +545,15 @@ func (ex *Exec) frameObligations(fr *frame, fc *FuncContract, g string, s *State
 			}
 		}
 	}
+	// an unmodelled call ("*" in the static write set) may have written anything: every heap key the execution
+	// touched is then a candidate, whether or not some statement names it
+	if written["*"] {
+		for k := range s.vars {
+			if strings.HasPrefix(k, "H$") || strings.HasPrefix(k, "A$") || strings.HasPrefix(k, "M$") || strings.HasPrefix(k, "MD$") || strings.HasPrefix(k, "C$") || strings.HasPrefix(k, "GV$") || strings.HasPrefix(k, "RF$") {
+				written[k] = true
+			}
+		}
+	}
 	var ws []string
 	for k := range written {
 		ws = append(ws, k)
@@ -552,6 +561,13 @@ func (ex *Exec) frameObligations(fr *frame, fc *FuncContract, g string, s *State
 	sort.Strings(ws)
 	for _, k := range ws {
 		if isLocalKey(k) || k == "*defer" {
+			continue
+		}
+		if k == "*" {
+			if !allowed["*"] {
+				o := ex.oblige(fmt.Sprintf("%s%s#frame:unmodelled_call", shortFn(fr.fn), ex.unitSuffix), "frame", "true", "true", "an unmodelled call may write anything: every key touched on a path to the exit is checked against the modifies clause", "")
+				o.Guard = "true"
+			}
 			continue
 		}
 		if newObjects && !allowed[k] {
